@@ -16,17 +16,45 @@ func init() {
 	})
 }
 
+var setPkgs = map[string]bool{"util/set": true, "util/container": true, "util/sparse": true}
+
 func init() {
 	register(&Property{
-		ID:    "XALIAS",
-		Rules: []string{"ALIAS", "ESCAPE"},
+		ID: "C25",
+		Explanation: "Decides structural necessary conditions of exact set algebra and closure: DTX(setalg): container.Merge/Intersect are evaluated abstractly for all 16 (Inverse, empty) operand states and the symbolic result (helper, operand order, polarity) equals A∪B / A∩B on every pair of subsets of a 3-element universe; Complement flips only the polarity. " +
+			"ALIAS: at every call that fills a caller-supplied scratch buffer (p[:0] idiom, found by summary) no other operand may share storage with the buffer (field-based may-alias with reaching stores). GUARD(complcycle): an error is recorded exactly under op==complement ∧ onStack(operand), and Compute returns it. " +
+			"Not decided: the merge loops of combine/intersect/subtract, the least-fixpoint property, Tarjan itself.",
+		Rules: []string{"DTX(setalg)", "ALIAS", "GUARD(complcycle)"},
 		Run: func(c *Ctx) {
-			ruleALIAS(c, nil)
-			ruleESCAPE(c, nil)
+			ruleSETALG(c)
+			ruleALIAS(c, setPkgs)
+			c.MinCount("ALIAS", "util/set.", 4)
+			ruleUNIONCLONE(c)
+			ruleCOMPLCYCLE(c)
+		},
+	})
+	register(&Property{
+		ID: "C15",
+		Explanation: "Decides structural necessary conditions of token-set resolution: SIBLING(resolvesets): each work-list case of syntax.ResolveSets (any/first/last/precede/follow) instantiates the sets its definition needs, walks the rule in the right direction from the right position, stops after the first non-nullable symbol (polarity of the nullable test) and falls through to the enclosing nonterminal only when the walk was not stopped. " +
+			"CYCLE: every recursion over *syntax.TokenSet (cyclic for mutually recursive named sets) is cut by a visited set keyed by the node. ALIAS/ESCAPE: scratch buffers of the set closure never alias an operand and buffer-backed slices are not retained. GUARD(complcycle): complement-on-cycle is reported exactly under op==complement ∧ onStack. DTX(setalg) as in C25. " +
+			"Not decided: that the fixpoint equals the definitional sets, Nullable(), reachability from the first input.",
+		Rules: []string{"SIBLING(resolvesets)", "CYCLE", "ALIAS", "ESCAPE", "GUARD(complcycle)", "DTX(setalg)", "GUARD(unionclone)"},
+		Run: func(c *Ctx) {
+			ruleRESOLVESETS(c)
+			ruleCYCLE(c)
+			pk := map[string]bool{"util/set": true, "util/container": true, "syntax": true}
+			ruleALIAS(c, pk)
+			ruleESCAPE(c, pk)
+			ruleCOMPLCYCLE(c)
+			ruleSETALG(c)
 		},
 	})
 }
 
 func init() {
-	register(&Property{ID: "XSET", Run: func(c *Ctx) { ruleSETALG(c) }})
+	register(&Property{ID: "XRS", Run: func(c *Ctx) { ruleRESOLVESETS(c) }})
+}
+
+func init() {
+	register(&Property{ID: "XUC", Run: func(c *Ctx) { ruleUNIONCLONE(c) }})
 }
